@@ -177,8 +177,16 @@ func genC05(r *kit.RNG) *C05Scenario {
 			if r.Chance(0.05) {
 				op.Ver = 1
 			}
+			hasCookie := false
 			for j, m := 0, r.Intn(3); j < m; j++ {
-				switch r.Intn(8) {
+				k := r.Intn(8)
+				if k == 0 || k == 1 || k == 7 {
+					if hasCookie {
+						continue // one COOKIE option per query (RFC 7873 §5.2 leaves several undefined)
+					}
+					hasCookie = true
+				}
+				switch k {
 				case 0:
 					op.Opts = append(op.Opts, C05Opt{Code: dns.EDNS0COOKIE, Hex: fmt.Sprintf("%016x", 0x1122334455667700+uint64(op.Client))})
 				case 1: // client+server cookie (the server part is whatever an earlier reply may have carried; here fixed bytes)
